@@ -51,6 +51,9 @@ def check(ctx):
     ctx.floor('A10a', 10, 'destructured calls on the decode slice')
     ctx.floor('A10b', 3, 'None-initialised names dereferenced on the decode slice')
     ctx.floor('A4', 15, 'derivation walks')
+    from ..rules import shapes as _sh10
+    _sh10.check_override_reductions(ctx)
+    ctx.floor('A10g', 1, 'reductions over per-scenario degree lists')
 
 
 from ..selftest import V  # noqa: E402
